@@ -267,7 +267,8 @@ func MakeFiller(p *Plan, src string) node.Filler {
 				}
 			}
 			if c.Distinct {
-				tx.Type = 2
+				// fee caps come with every dynamic-fee type (1559, blob, set-code)
+				tx.Type = byte(2 + r.IntN(3))
 				tx.Nonce = 1 + r.Uint64N(1<<40)
 				tx.Value = new(big.Int).Add(randInt(r, 100, false), bigOne)
 				tx.GasPrice = new(big.Int).Add(randInt(r, 60, false), big.NewInt(3))
@@ -279,11 +280,11 @@ func MakeFiller(p *Plan, src string) node.Filler {
 				tx.EffGasPrice = new(big.Int).Add(randInt(r, 58, false), big.NewInt(11))
 				tx.ContractAddr = nonZeroBytes(r, 20)
 			} else {
-				tx.Type = byte(r.IntN(3))
+				tx.Type = byte(r.IntN(5))
 				tx.Nonce = r.Uint64N(1 << 32)
 				tx.Value = randInt(r, 128, false)
 				tx.GasPrice = randInt(r, 64, false)
-				if tx.Type == 2 { // only EIP-1559 transactions carry fee caps
+				if tx.Type >= 2 { // dynamic-fee transactions (1559, blob, set-code) carry fee caps
 					tx.MaxPrio = randInt(r, 40, false)
 					tx.MaxFee = randInt(r, 48, false)
 				}
